@@ -23,9 +23,10 @@ def plan(tier, seed):
 
 
 def thresholds(tier):
-  t = {"designs": 150, "signal_cycle_comparisons": 20000, "shared_symbols": 50, "textwave_comparisons": 10000, "change_records_parsed": 5000, "designs_with_inputs_echoing_tied_constants": 30}
+  t = {"designs": 150, "signal_cycle_comparisons": 20000, "shared_symbols": 50, "textwave_comparisons": 10000, "change_records_parsed": 5000, "designs_with_inputs_echoing_tied_constants": 30, "big_designs": 1}
   if tier == "thorough":
     t = {k: v * 15 for k, v in t.items()}
+    t["big_designs"] = 1                      # one per run (shard 0)
   return t
 
 
@@ -158,7 +159,64 @@ def run_case(sh, case):
     except OSError: pass
 
 
+BIG_SRC = """from pymtl3 import *
+class Big(Component):
+  def construct(s, N):
+    s.in_ = InPort(8)
+    s.w = [Wire(8) for _ in range(N)]
+    @update
+    def up():
+      for i in range(N):
+        s.w[i] @= s.in_ + (i & 255)
+"""
+
+
+def run_big_case(sh):
+  """a flat design with more than 94 + 94*94 nets: VCD identifier codes need three characters and must stay distinct"""
+  from pymtl3 import DefaultPassGroup
+  N = 9100
+  mod = G.load_source(BIG_SRC, "c16big")
+  fname = os.path.join(os.getcwd(), f"wave_big_{sh.idx}")
+  try:
+    top = mod.Big(N); top.elaborate()
+    top.apply(DefaultPassGroup(vcdwave=fname))
+    top.sim_reset()
+    ins = []
+    for cyc in range(3):
+      v = (37 * cyc + 11) & 255
+      top.in_ @= v; ins.append(v); top.sim_tick()
+    text = open(fname + ".vcd").read()
+    vars_, changes = vcdparse.parse(text)
+    syms = {}
+    for scope, name, width, sym in vars_:
+      syms.setdefault(sym, []).append(name)
+    shared = {k: v for k, v in syms.items() if len(v) > 1 and not all(n in ("clk",) for n in v)}
+    sh.count("big_design_symbols", len(syms))
+    if shared:
+      k0 = sorted(shared)[0]
+      sh.violation("unrelated-signals-share-one-vcd-identifier", {"identifier": k0, "signals": shared[k0][:5], "nets": len(syms)}, case="big"); return
+    byname = {name: sym for scope, name, width, sym in vars_}
+    # sim_reset = 3 ticks (in_ = 0), then the 3 driven cycles
+    for cyc, v in enumerate(ins):
+      t = 100 * (3 + cyc)
+      for i in list(range(0, N, 97)) + list(range(N - 300, N)):
+        sh.count("big_design_value_comparisons")
+        got = vcdparse.value_at(changes.get(byname[f"w({i})"], []), t)
+        if got != (v + i) & 255:
+          sh.violation("vcd-value-differs-from-simulator-value-at-the-clock-edge", {"signal": f"s.w[{i}]", "cycle": cyc, "vcd": got, "simulator": (v + i) & 255,
+                       "design": "flat design with 9100 wires"}, case="big"); return
+    sh.count("big_designs")
+  except Exception as e:
+    sh.inconclusive("big-design-harness:" + type(e).__name__); sh.sample({"big_error": traceback.format_exc()[-500:]})
+  finally:
+    G.unload(mod)
+    try: os.remove(fname + ".vcd")
+    except OSError: pass
+
+
 def run_shard(sh):
+  if sh.idx == 0:
+    run_big_case(sh)
   for case in range(sh.params["designs"]):
     if sh.only is not None and str(case) != str(sh.only).strip('"'):
       continue
